@@ -190,7 +190,7 @@ def rule_dec(ctx):
     pr = p.method("BaseClient", "parse_response")
     # framing decision: abstract evaluation of the decoder against the reference framing over all line-kind sequences of length <= 3
     from .. import decoder
-    n_seq, diffs = decoder.compare(pr, 3)
+    n_seq, diffs = decoder.compare(pr, 3, helpers={n_: f_ for n_, f_ in p.methods("BaseClient").items() if n_ not in ("parse_response", "parse_line")})
     groups = {}
     for lines, got, want in diffs:
         groups.setdefault((got[0], want[0]), []).append((lines, got, want))
@@ -203,7 +203,7 @@ def rule_dec(ctx):
                 "('more' = keeps waiting for lines / swallows the next reply, 'done' = ends the reply, 'reject' = raises)") if bad else "",
                construct=f"parse_response:framing:first={kind!r}:{bad[0][1][0] if bad else ''} vs {bad[0][2][0] if bad else ''}")
     ctx.note(f"decoder abstract evaluation: {n_seq} line sequences, {len(diffs)} deviations")
-    loops = [n for n in walk_no_nested(pr) if isinstance(n, ast.While)]
+    loops = [n for n in ast.walk(pr) if isinstance(n, ast.While)]   # local helper functions of the decoder included
     if len(loops) != 1:
         if diffs:
             return
